@@ -613,6 +613,9 @@ func (sched *StdScheduler) startExecutionLoop(ctx context.Context) {
 		case <-ctx.Done():
 			sched.logger.Info("Exit the execution loop")
 			timer.Stop()
+			// an interrupt consumed by this loop on its way out may have been
+			// meant for the loop of the next run: hand it on
+			sched.Reset()
 			return
 		}
 	}
